@@ -2,9 +2,9 @@ package vtypes
 
 // C06, nested structs: every proper prefix of a valid encoding of a struct that CONTAINS structs
 // (member, optional member, vector elements - corpus struct Holder) either fails to decode or is
-// itself a complete encoding: a prefix that decodes without error must re-encode to exactly
-// those bytes (the encoder is canonical). In particular a nested struct cut before its StructEnd
-// is an error, never "complete".
+// itself a complete encoding, i.e. ends exactly at a boundary between top-level members after
+// the required one (the boundaries are computed from the blocks the encoder writes for the
+// members). In particular a nested struct cut before its StructEnd is an error, never "complete".
 
 import (
 	"github.com/TarsCloud/TarsGo/tars/protocol/codec"
@@ -32,10 +32,20 @@ func VerifC06TruncatedNested() {
 	cut := vapi.Len("cut", 24)
 	vapi.Assume(cut < len(full))
 	pre := full[:cut]
+	// top-level member boundaries: after the required member o, and before the last member oo
+	bo := codec.NewBuffer()
+	_ = v.O.WriteBlock(bo, 0)
+	afterO := len(bo.ToBytes())
+	boo := codec.NewBuffer()
+	_ = v.Oo.WriteBlock(boo, 2)
+	beforeOo := len(full) - len(boo.ToBytes())
 	var got Holder
 	if got.ReadFrom(codec.NewReader(pre)) == nil {
-		again := encode(&got)
-		vapi.Check(vapi.BytesEq(again, pre), "a truncated encoding that decodes without error is itself a complete encoding (it re-encodes to exactly itself)")
+		vapi.Check(cut == afterO || cut == beforeOo, "a truncated encoding that decodes without error ends exactly at a boundary between top-level members")
+		vapi.Check(got.O.A == v.O.A && got.O.S == v.O.S, "the members present in full are decoded to their values")
+		if cut == beforeOo {
+			vapi.Check(len(got.Vo) == len(v.Vo), "the members present in full are decoded to their values")
+		}
 	}
 	vapi.Reach("c06-truncated-nested")
 }
